@@ -185,6 +185,10 @@ func (r *foRun) followUp(keys []int, skipRead bool) []followResult {
 			if x.err != nil {
 				fr.Err = x.err.Error()
 			}
+			// a stale value may have been served while the build runs in background: let it finish
+			for dl := time.Now().Add(5 * time.Second); len(r.fo.LockedKeys()) > 0 && time.Now().Before(dl); {
+				time.Sleep(50 * time.Microsecond)
+			}
 			fr.Built = atomic.LoadInt64(&r.buildN) > before
 		case <-time.After(3 * time.Second):
 			// nothing else is running: a blocked follow-up Get is waiting for a lock nobody holds
@@ -296,6 +300,7 @@ type foCase struct {
 	FaultAt  int64             `json:"fault_at"`
 	FaultOps string            `json:"fault_ops"`
 	FailPct  int               `json:"builder_fail_pct"`
+	SlowBuilds bool            `json:"slow_builds"`
 	Seed     int64             `json:"seed"`
 }
 
@@ -325,6 +330,11 @@ func genFoCase(rng *rand.Rand, o foGenOpts) *foCase {
 		c.Cfg.FailedUpdateTTL = -1
 	case 1:
 		c.Cfg.FailedUpdateTTL = time.Hour
+	}
+	if rng.Intn(8) == 0 {
+		// refreshed stale values expire again while the (slow) build is still running
+		c.Cfg.UpdateTTL = time.Millisecond
+		c.SlowBuilds = true
 	}
 	c.CfgS = c.Cfg.String()
 	c.Strategy = []string{"random", "pct", "rtb"}[rng.Intn(3)]
@@ -415,9 +425,14 @@ func (c *foCase) run() *foExec {
 	}
 	seed := uint64(c.Seed)
 	failPct := uint64(c.FailPct)
+	slow := c.SlowBuilds
 	r.script = func(key, inv int) buildOutcome {
 		h := mix64(seed ^ uint64(key+1)*0x9E3779B97F4A7C15 ^ uint64(inv+1)*0xC2B2AE3D27D4EB4F)
-		return buildOutcome{OK: h%100 >= failPct}
+		out := buildOutcome{OK: h%100 >= failPct, CtxErr: (h>>9)%3 == 0}
+		if slow {
+			out.Sleep = 3 * time.Millisecond
+		}
+		return out
 	}
 	r.faultAt, r.faultOps = c.FaultAt, c.FaultOps
 	if !c.Steered {
